@@ -106,7 +106,10 @@ def run(chk):
               for w in pw for rest in (" 5", " 1 degrees", "", " 40. 2", " 1e3", " lovestruck 7", ". 5")]
     from . import gen_alias
     alias_cases = gen_alias.programs(quick, rng)
+    from . import c01
+    chains = c01.deep_nesting([1, 2, 3, 4, 5, 6, 9]) + c01.chains()
     l2 = [f"(exec a{i} parse {C.hx(c['src'])})" for i, c in enumerate(alias_cases)] + \
+         [f"(exec k{i} parse {C.hx(t)})" for i, t in enumerate(chains)] + \
          [f"(exec w{i} parse {C.hx(t + chr(10) + 'say it' + chr(10))})" for i, t in enumerate(poetic)] + \
          [f"(exec n{i} parse {C.hx('say ' + t)})" for i, t in enumerate(lits)] + \
          [f"(exec q{i} parse {C.hx('say ' + chr(34) + t + chr(34))})" for i, t in enumerate(strs)]
